@@ -37,4 +37,10 @@ def run(ctx, b, broken):
             su.violation(text, "statement tree differs from C's statement nesting / source order: " + dd)
         elif len(ctx.samples) < 5 and len(kinds) >= 4:
             ctx.sample({"text": text})
+    # hand-written programs (rare statement forms: pragma runs with _Pragma in front of sub-statements, stacked labels, nested
+    # switches, ...): model and implementation must agree on each
+    for text, _valid in ZOO:
+        ctx.evaluations += 1
+        ctx.count("suite:zoo")
+        su.corr(text, impl_parse(text), tag="hand-written programs")
     su.finish()
